@@ -233,7 +233,7 @@ fn observe(aw: &Awareness) -> Result<Reg, Failure> {
                 J::obj(vec![("state", J::str(&format!("{:?}", state)))]),
             ));
         }
-        if client == LOCAL {
+        if client == aw.client_id().get() {
             at("Awareness::local_state_raw");
             let raw = aw.local_state_raw().map(|r| label_of(&r));
             if raw != live {
@@ -962,36 +962,55 @@ impl Msg {
     }
 }
 
+/// What is checked about a message: the v1 round trip (plus truncations),
+/// `MessageReader` over two concatenated v1 encodings, the v2 round trip
+/// (plus truncations).
+pub const MSG_CHECKS: [&str; 3] = ["v1", "reader", "v2"];
+
 #[derive(Clone, Debug)]
 pub struct MsgCase {
     pub msg: Msg,
+    pub check: &'static str,
 }
 
 impl MsgCase {
     pub fn describe(&self) -> (String, J) {
         (
-            "message".to_string(),
+            self.check.to_string(),
             J::obj(vec![("kind", J::str("round_trip")), ("msg", self.msg.to_json())]),
         )
     }
 
-    pub fn from_json(op: &J) -> Result<MsgCase, String> {
+    pub fn from_json(variant: &str, op: &J) -> Result<MsgCase, String> {
+        let check = *MSG_CHECKS
+            .iter()
+            .find(|c| **c == variant)
+            .ok_or_else(|| format!("variant: unknown check {:?} (v1 | reader | v2)", variant))?;
         Ok(MsgCase {
             msg: Msg::from_json(op.get("msg").ok_or("op.msg missing")?)?,
+            check,
         })
     }
 
     pub fn run(&self) -> Result<(), Failure> {
         let m = self.msg.build();
+        match self.check {
+            "v1" => self.round_trip(&m, 1),
+            "v2" => self.round_trip(&m, 2),
+            _ => self.reader(&m),
+        }
+    }
+
+    fn round_trip(&self, m: &Message, v: u8) -> Result<(), Failure> {
         let expected = || self.msg.to_json();
-        for v in [1u8, 2] {
+        {
             at(&format!("Message::encode_v{}", v));
             let bytes = if v == 1 { m.encode_v1() } else { m.encode_v2() };
             let api = format!("Message::decode_v{}(Message::encode_v{}(m))", v, v);
             at(&api);
             let back = if v == 1 { Message::decode_v1(&bytes) } else { Message::decode_v2(&bytes) };
             match back {
-                Ok(d) if d == m => {}
+                Ok(d) if &d == m => {}
                 Ok(d) => {
                     return Err(fail(
                         "decode(encode(m)) != m",
@@ -1020,7 +1039,7 @@ impl MsgCase {
                 // Err or a value; a panic is caught by the caller
                 let _ = if v == 1 { Message::decode_v1(&bytes[..k]) } else { Message::decode_v2(&bytes[..k]) };
             }
-            if let Message::Sync(sm) = &m {
+            if let Message::Sync(sm) = m {
                 at(&format!("SyncMessage::encode_v{}", v));
                 let bytes = if v == 1 { sm.encode_v1() } else { sm.encode_v2() };
                 let api = format!("SyncMessage::decode_v{}(SyncMessage::encode_v{}(m))", v, v);
@@ -1059,7 +1078,12 @@ impl MsgCase {
                 }
             }
         }
-        // two messages in one buffer, read back one by one
+        Ok(())
+    }
+
+    /// Two messages in one buffer, read back one by one.
+    fn reader(&self, m: &Message) -> Result<(), Failure> {
+        let expected = || self.msg.to_json();
         let api = "MessageReader over [m, m] (EncoderV1)";
         at(api);
         let mut enc = EncoderV1::new();
@@ -1079,7 +1103,7 @@ impl MsgCase {
                 None => break,
             }
         }
-        let ok = got.len() == 2 && got.iter().all(|g| g.as_ref().ok() == Some(&m));
+        let ok = got.len() == 2 && got.iter().all(|g| g.as_ref().ok() == Some(m));
         if !ok {
             return Err(fail(
                 "MessageReader does not return the two encoded messages",
@@ -1183,13 +1207,15 @@ fn all_messages() -> Vec<Msg> {
 pub fn search_syncmsg(r: &mut Runner) -> Result<(), XStop> {
     let msgs = all_messages();
     let msgs = &msgs;
-    // units of 64 messages
+    // units of 64 messages; every message under v1 first, v2 last
     let units = (msgs.len() + 63) / 64;
-    r.par(units, &|ctx: &mut Ctx, unit: usize| {
-        for m in msgs.iter().skip(unit * 64).take(64) {
-            ctx.exec(XCase::Msg(MsgCase { msg: m.clone() }))?;
-        }
-        Ok(())
-    })?;
+    for check in MSG_CHECKS {
+        r.par(units, &|ctx: &mut Ctx, unit: usize| {
+            for m in msgs.iter().skip(unit * 64).take(64) {
+                ctx.exec(XCase::Msg(MsgCase { msg: m.clone(), check }))?;
+            }
+            Ok(())
+        })?;
+    }
     Ok(())
 }
